@@ -38,10 +38,10 @@ theorem C13_lex_total (bytes : List Nat) :
     cases hs : scan t with
     | ok n => trivial
     | diag l m =>
-      have := loop_diag_bound t _ _ _ _ _ _ _ hs
+      have := loop_diag_bound _ _ _ _ _ _ hs
       simp only; omega
-    | overread w => exact absurd hs (loop_no_overread t _ _ _ _ _ w)
-    | fuel => exact loop_no_fuel t _ _ _ _ _ (Nat.lt_succ_self _) hs
+    | overread w => exact absurd hs (loop_no_overread _ _ _ _ w)
+    | fuel => exact loop_no_fuel _ _ _ _ (Nat.lt_succ_self _) hs
 
 /-- non-vacuity: one instance of each outcome (kernel-evaluated) -/
 example : lexFile [105, 110, 116, 32, 120, 59] = .ok 3 := by decide                       -- `int x;`
@@ -94,10 +94,10 @@ theorem C13_scan_total (text : List Nat) :
   cases hs : scan text with
   | ok n => trivial
   | diag l m =>
-    have := loop_diag_bound text _ _ _ _ _ _ _ hs
+    have := loop_diag_bound _ _ _ _ _ _ hs
     simp only; omega
-  | overread w => exact absurd hs (loop_no_overread text _ _ _ _ _ w)
-  | fuel => exact loop_no_fuel text _ _ _ _ _ (Nat.lt_succ_self _) hs
+  | overread w => exact absurd hs (loop_no_overread _ _ _ _ w)
+  | fuel => exact loop_no_fuel _ _ _ _ (Nat.lt_succ_self _) hs
 
 example : scan [47, 47] = .ok 0 ∧ scan [34, 92] = .diag 1 .unclosedString := by decide     -- paste of `/` `/`; `"\` at the end
 
